@@ -17,18 +17,40 @@ RUN_METHODS = ('init', 'setup', 'process', 'process_frames', 'loop_once', 'shutd
 OUT_OF_SCOPE = {
     'openfilter/filter_runtime/zeromq.py': 'strings that reach it are tcp:// / ipc:// endpoints validated by Filter.init; a user:pw@ form is not a connectable ZeroMQ endpoint',
     'openfilter/filter_runtime/mq.py': 'same as zeromq.py',
-    'openfilter/filter_runtime/dlcache.py': 'jfrog:// artefacts authenticate by token from the environment; its log lines follow a network round-trip',
 }
+DLC = 'openfilter/filter_runtime/dlcache.py'
 
 
 def in_scope(relpath: str) -> bool:
-    return relpath == F or relpath.startswith('openfilter/filter_runtime/filters/') or relpath == 'openfilter/observability/lineage.py'
+    return relpath in (F, DLC) or relpath.startswith('openfilter/filter_runtime/filters/') or relpath == 'openfilter/observability/lineage.py'
+
+
+def dlcache_entry(repo):
+    """The download cache is fed with URI strings taken from the configuration (Filter.download_cached_files -> dlcache.files -> DLCache.ensure on a
+    thread): -> (call in filter.py, DLCache.files, DLCache.ensure, DLCache.filename), Unresolved when that chain is no longer there."""
+    fmod, dcf = repo.find(f'{F}::Filter.download_cached_files')
+    calls = [c for c in q.calls_in(dcf) if U(c.func) == 'dlcache.files']
+    dmod, files = repo.find(f'{DLC}::DLCache.files')
+    _, ensure = repo.find(f'{DLC}::DLCache.ensure')
+    _, filename = repo.find(f'{DLC}::DLCache.filename')
+    if not calls:
+        raise Unresolved(f'{F}: Filter.download_cached_files no longer hands the configuration URIs to dlcache.files(...)')
+    if not any(isinstance(n, ast.Attribute) and U(n) == 'self.ensure' for n in ast.walk(files)) or not any(U(c.func) == 'self.filename' for c in q.calls_in(files)):
+        raise Unresolved(f'{DLC}: DLCache.files no longer passes its URIs to self.ensure / self.filename')
+    return calls[0], files, ensure, filename
 
 
 def engine(repo) -> TaintEngine:
     e = getattr(repo, '_taint', None)
     if e is None:
         e = TaintEngine(repo, set())
+        # entry into the download cache: the strings it is given are configuration URIs (dlcache_entry checks the chain that carries them there);
+        # the local file name is that URI with `jfrog://` cut off, i.e. a value the masks can no longer match as it stands
+        from ..taint import URI, NOSCHEME
+        _, files, ensure, filename = dlcache_entry(repo)
+        for fn, pname, lab in ((files, q.func_params(files)[1], {SRC, URI}), (ensure, q.func_params(ensure)[1], {SRC, URI}), (ensure, q.func_params(ensure)[2], {SRC, URI, NOSCHEME}),
+                               (filename, q.func_params(filename)[1], {SRC, URI})):
+            e.seed(e.by_node[id(fn)], pname, frozenset(lab))
         e.run()
         repo._taint = e
     return e
@@ -75,7 +97,7 @@ def r1(rr, repo):
     for (nid, kind), (node, mod, k, text, via) in sorted(seen.items(), key=lambda kv: (kv[1][1].relpath, kv[1][0].lineno)):
         what = {'log': 'a configuration URI reaches a log call unsanitised', 'frame-meta': 'a configuration URI reaches frame metadata sent downstream unsanitised',
                 'lineage': 'the configuration reaches lineage facets unsanitised', 'logged-exception': 'a configuration URI is formatted into an exception message that Filter.run logs'}[k]
-        rr.violated(what, mod, node, witness=f'{k}: {text}', key=f'{k}|{re.sub(r"\s+", " ", text)[:100]}')
+        rr.violated(what, mod, getattr(node, 'call', node), witness=f'{k}: {text}', key=f'{k}|{re.sub(r"\s+", " ", text)[:180 if hasattr(node, "call") else 100]}')
     rr.floor('log / Frame sinks in scope', n_sinks, 60)
     # positive instances: places where the sanitizer does its job
     pos = 0
@@ -309,3 +331,19 @@ def r4(rr, repo):
         else:
             rr.violated(f"{fn.name}: the scan for pieces that belong to the address runs from the front and stops at the FIRST piece that cannot be an option: a password with two or more {delim!r} is still cut inside",
                         mod, j, witness=f'for ... in {it}', key=f'split-cuts-credential|{fn.name}|{delim}')
+
+
+@rule('C15.R5', "what normalisation leaves in the configuration can still be masked: no normalize_config stores a credential-bearing URI back into the configuration with its scheme cut off (or clipped at the "
+                "tail) - the start-up line and the lineage START facets mask the normalised configuration with patterns anchored on `scheme://`, a value stored without it goes out as it is")
+def r5(rr, repo):
+    eng = engine(repo)
+    ncs = [fi for fi in eng.fns.values() if fi.node.name == 'normalize_config' and fi.cls is not None and in_scope(fi.mod.relpath)]
+    rr.floor('normalize_config methods analysed', len(ncs), 8)
+    stores = sum(1 for fi in ncs for n in ast.walk(fi.node) if isinstance(n, (ast.Assign, ast.AugAssign)) for t in (n.targets if isinstance(n, ast.Assign) else [n.target])
+                 if isinstance(t, (ast.Attribute, ast.Subscript)))
+    rr.floor('stores into a configuration object inside normalize_config methods', stores, 30)
+    for (fkey, tgt_text), (node, mod) in sorted(eng.cut_config_stores.items(), key=lambda kv: (kv[1][1].relpath, kv[1][0].lineno)):
+        rr.violated('normalize_config stores a configuration URI without its scheme: the masks of the start-up line and of the lineage facets cannot match it', mod, node,
+                    witness=f'{tgt_text} = <value cut from a configuration URI>', key=f'cut-store|{tgt_text}')
+    if not eng.cut_config_stores:
+        rr.holds('no normalize_config stores a cut configuration URI', key='none')
